@@ -204,7 +204,7 @@ fn check_server(s: &Srv, out: &mut Out, which: &str) {
     }
     }
     // ---- C03 / C06: write side -----------------------------------------------------------------------------
-    if want(&["C03", "C06", "C09"]) {
+    if want(&["C03", "C06", "C09", "C13"]) {
     let before = dir_snapshot(&s.root);
     for name in escapes.iter().map(|e| e.replace("secret.txt", "planted.txt")) {
         let c = client();
@@ -227,8 +227,15 @@ fn check_server(s: &Srv, out: &mut Out, which: &str) {
                 out.add("C06", s, format!("WRQ for an existing file (no --overwrite) was answered with {:?} instead of ERROR 6 from the listening port", r.map(|x| verif_replay::fmt_packet(&x.0))));
             }
         } else if let Some((_, from)) = &r {
-            // abort the accepted overwrite so that the snapshot comparison below is not disturbed by a half-open transfer
+            // abort the accepted overwrite after one block: with clean-on-error in force (the default) the partial file must go (C13)
+            let _ = c.send_to(&Packet::Data { block_num: 1, data: vec![7u8; 1024] }.serialize().unwrap(), from);
+            let _ = recv(&c);
             let _ = c.send_to(&Packet::Error { code: ErrorCode::NotDefined, msg: "stop".into() }.serialize().unwrap(), from);
+            std::thread::sleep(Duration::from_millis(60));
+            if let Ok(left) = std::fs::read(s.recv_dir.join("existing.bin")) {
+                out.add("C13", s, format!("an accepted overwrite of existing.bin was aborted by the peer after one block: the partial file ({} bytes) is left behind although clean-on-error is in force", left.len()));
+            }
+            std::fs::write(s.recv_dir.join("existing.bin"), b"OLD CONTENT OF AN EXISTING UPLOAD").unwrap();
         }
     }
     if !(s.cfg.overwrite && !s.cfg.read_only) {
